@@ -446,6 +446,7 @@ func randomWorker(c *vf.Ctx, k int) {
 	nSeq := c.Pick(12, 120)
 	length := 300
 	reported := map[string]bool{}
+	panicSampled := false
 	known := metacmd.KnownSignatures(c, "C16")
 	for sn := 0; sn < nSeq; sn++ {
 		opts := ms.VerifFSMOptions{PtNumPerNode: uint32(1 + r.IntN(3)), NumOfShards: int32(r.IntN(4)), RetentionAutoCreate: r.IntN(2) == 0,
@@ -479,7 +480,10 @@ func randomWorker(c *vf.Ctx, k int) {
 			is, _, pan := st.step(cm, "")
 			if pan != nil {
 				c.Inconclusive("apply-panic:"+cm.Name, 1)
-				c.Sample(map[string]any{"apply_panic": fmt.Sprint(pan), "cmd": cm.Name + " " + cm.Desc})
+				if !panicSampled && k < 2 {
+					panicSampled = true
+					c.Sample(map[string]any{"apply_panic": fmt.Sprint(pan), "cmd": cm.Name + " " + cm.Desc, "note": "sequence abandoned; a panic of the state machine is outside C16"})
+				}
 				break
 			}
 			for _, x := range is {
@@ -513,7 +517,7 @@ func randomWorker(c *vf.Ctx, k int) {
 		if maxLive >= 2 && st.errs > 0 && st.oks >= 30 {
 			c.Nontrivial(fmt.Sprintf("rand/%d/%d", k, sn))
 		}
-		if sn == 0 && k == 0 {
+		if sn < 2 && k < 3 {
 			var names []string
 			for i := 0; i < min(10, len(hist)); i++ {
 				names = append(names, hist[i].Name+" "+hist[i].Desc)
